@@ -117,10 +117,19 @@ fn prec(p: u8) -> Option<&'static str> {
         _ => None,
     }
 }
+/// the file format accepts `name` / `symbol` / `alias` for `names` / `symbols` / `aliases`: which spelling a
+/// list gets is a function of its content (a third of the lists get the singular)
+fn key_spelling(plural: &'static str, v: &[String]) -> &'static str {
+    if (v.len() + v.first().map_or(0, |s| s.len())) % 3 == 0 {
+        &plural[..plural.len() - if plural == "aliases" { 2 } else { 1 }]
+    } else {
+        plural
+    }
+}
 fn tunit(u: &UnitM) -> String {
-    let mut s = format!("{{ names = {}, symbols = {}", tlist(&u.names), tlist(&u.symbols));
+    let mut s = format!("{{ {} = {}, {} = {}", key_spelling("names", &u.names), tlist(&u.names), key_spelling("symbols", &u.symbols), tlist(&u.symbols));
     if !u.aliases.is_empty() {
-        s.push_str(&format!(", aliases = {}", tlist(&u.aliases)));
+        s.push_str(&format!(", {} = {}", key_spelling("aliases", &u.aliases), tlist(&u.aliases)));
     }
     s.push_str(&format!(", ratio = {}", tnum(u.ratio)));
     if u.difference != 0.0 {
@@ -214,13 +223,13 @@ pub fn to_toml(f: &FileM) -> String {
                 parts.push(format!("difference = {}", tnum(r)));
             }
             if let Some(v) = &en.names {
-                parts.push(format!("names = {}", tlist(v)));
+                parts.push(format!("{} = {}", key_spelling("names", v), tlist(v)));
             }
             if let Some(v) = &en.symbols {
-                parts.push(format!("symbols = {}", tlist(v)));
+                parts.push(format!("{} = {}", key_spelling("symbols", v), tlist(v)));
             }
             if let Some(v) = &en.aliases {
-                parts.push(format!("aliases = {}", tlist(v)));
+                parts.push(format!("{} = {}", key_spelling("aliases", v), tlist(v)));
             }
             s.push_str(&format!("{} = {{ {} }}\n", tstr(k), parts.join(", ")));
         }
